@@ -340,3 +340,10 @@ func RunRegion(fn, calleeSuffix string, result interface{}) bool { return false 
 // same (key bytes, message, signature). Natively there is no such oracle: harnesses using it are
 // engine-only (model-level).
 func SigVerdict(pk, msg, sig []byte) bool { return false }
+
+// Replace (engine only) makes every call of the function whose full SSA name is fn — e.g.
+// "(github.com/pokt-network/pocket-core/types.BigDec).FracPow" — run standIn instead, which must
+// take the same parameters (receiver first) and return the same results. It is how a harness puts
+// a contract in place of a callee the solver cannot execute. Natively it does nothing and returns
+// false: harnesses that use it are engine-only (model-level).
+func Replace(fn string, standIn interface{}) bool { return false }
